@@ -733,6 +733,19 @@ class World:
                     self.vio('index-and-listed-site-differ', {'j': where, 'k': k, 'site': str(cursor_pos(sites[where]))[:120],
                                                               'diff': _text_diff(_alpha(g.format(), known), _alpha(g3.format(), known))},
                              strategy=name, where_kind=wk)
+        # "aiming at nothing rewrites all k", at expression granularity for expression rules: none of the
+        # listed expressions is still there (the rules' right-hand sides do not contain their left-hand sides)
+        if wk == 'none' and name in ('rw_fma', 'rw_dbl'):
+            gfp = M.fingerprint(g.ast)
+            for j, cur in enumerate(sites):
+                try:
+                    efp = M.fingerprint(cur.resolve())
+                except Exception:
+                    continue
+                if _fp_contains(gfp, efp):
+                    self.vio('listed-site-not-rewritten', {'j': j, 'k': k, 'site': str(cursor_pos(cur))[:120], 'expr': _fmt(cur.resolve()),
+                                                           'result': g.format()[:400]}, strategy=name, where_kind=wk)
+                    break
         # a rule object reused across applications answers as a freshly made one does
         if name in RULES:
             try:
@@ -1001,6 +1014,18 @@ def _alpha(text: str, known: set) -> str:
             return w
         return names.setdefault(w, f'${len(names)}')
     return _IDENT.sub(sub, text)
+
+
+def _fp_contains(big, small) -> bool:
+    """Whether the fingerprint `small` occurs anywhere inside the (nested-tuple) fingerprint `big`."""
+    stack = [big]
+    while stack:
+        x = stack.pop()
+        if x == small:
+            return True
+        if isinstance(x, tuple):
+            stack.extend(x)
+    return False
 
 
 def _text_diff(a: str, b: str) -> list:
